@@ -53,6 +53,7 @@ func (u *Unit) optsKey() string {
 type Family struct {
 	Prop      string
 	Module    string // MC module that enumerates units and checks the design
+	More      []Extra // further MC modules whose units are judged as well (C02, C19, C17 reuse other families)
 	TraceMod  string // trace module (default Trace_RT)
 	Judge     string
 	PackSize  int
@@ -64,6 +65,13 @@ type Family struct {
 	Rule      string
 	ExtraCfg  func(tier string) string // extra CONSTANTS lines for the MC cfg
 	Assume    []string
+}
+
+// Extra names another MC module to enumerate, with its own constants and an optional sampling fraction.
+type Extra struct {
+	Module   string
+	ExtraCfg func(tier string) string
+	Frac     func(tier string) float64 // 0 or 1 = all units
 }
 
 type Report struct {
@@ -123,13 +131,58 @@ func devSet(devs []string) string {
 
 // Enumerate runs the MC module: design-level invariants + unit emission.
 func Enumerate(f *Family, sc *work.Scratch, devs []string, tier string) ([]*Unit, *tlc.Result, error) {
+	units, res, err := enumerateOne(f.Module, f.ExtraCfg, sc, devs, tier)
+	if err != nil {
+		return nil, res, err
+	}
+	for _, x := range f.More {
+		us, r, err := enumerateOne(x.Module, x.ExtraCfg, sc, devs, tier)
+		if err != nil {
+			return nil, r, err
+		}
+		frac := 1.0
+		if x.Frac != nil {
+			frac = x.Frac(tier)
+		}
+		if frac > 0 && frac < 1 {
+			rng := rand.New(rand.NewSource(seedOf() + int64(len(x.Module))))
+			var keep []*Unit
+			for _, u := range us {
+				if rng.Float64() < frac {
+					keep = append(keep, u)
+				}
+			}
+			us = keep
+		}
+		units = append(units, us...)
+		res.Generated += r.Generated
+		res.Distinct += r.Distinct
+		res.WallS += r.WallS
+	}
+	for i, u := range units {
+		u.Idx = i
+	}
+	return units, res, nil
+}
+
+func seedOf() int64 {
+	if s := os.Getenv("VERIF_SEED"); s != "" {
+		if n, err := strconv.ParseInt(s, 10, 64); err == nil {
+			return n
+		}
+	}
+	return 1
+}
+
+func enumerateOne(module string, extraCfg func(string) string, sc *work.Scratch, devs []string, tier string) ([]*Unit, *tlc.Result, error) {
+	f := &Family{Module: module}
 	extra := ""
-	if f.ExtraCfg != nil {
-		extra = f.ExtraCfg(tier)
+	if extraCfg != nil {
+		extra = extraCfg(tier)
 	}
 	cfg := "SPECIFICATION Spec\nCONSTANTS\n  UnitsFile = \"stdout\"\n  Devs = " + devSet(devs) + "\n" + extra +
 		"INVARIANTS DesignOK AsIsOK Emit\nCHECK_DEADLOCK FALSE\n"
-	r, err := tlc.Run(tlc.Opts{Module: f.Module, Cfg: cfg, Dir: filepath.Join(sc.Dir, "tlc-mc"), Workers: 16,
+	r, err := tlc.Run(tlc.Opts{Module: f.Module, Cfg: cfg, Dir: filepath.Join(sc.Dir, "tlc-mc-"+module), Workers: 16,
 		Timeout: 30 * time.Minute, HeapGB: 12})
 	if err != nil {
 		return nil, r, err
